@@ -206,4 +206,43 @@ CHECKS = {
         "assumptions": ["database equality is taken on the sequential codec's output, to which C07 relates the real compiler"],
         "required_probes": {"quick": ["lines_round_tripped", "range_point_lines"], "thorough": ["lines_round_tripped", "range_point_lines", "producer_chunk_scheduled"]},
     },
+    "C11": {
+        "test": "TestC11",
+        "level": "exploration",
+        "budget": {"quick": 40, "thorough": 600},
+        "rule": ("each evaluation declares 1-12 candidate addresses (weights 0, 1, 2, 3, 10, 1000, 2^32-1; untagged and two locations; both families) plus "
+                 "0-5 addresses for the NS/MX target, compiles them to a real CDB and lets 1-4 client tasks query concurrently (max answer 1..8 through "
+                 "the request context) with the package's random source seeded from the scenario, so a run is repeatable. Every response is checked: "
+                 "count = min(max, visible positive-weight candidates), no repetition, only declared visible candidates, weight 0 never served while the "
+                 "name still exists, at most one glue address per family. One run in ten adds 20000 draws with max answer 1 and a chi-square test "
+                 "against the weights at p < 1e-9. Non-trivial = more than one candidate; distinct = schedule hash + random seed."),
+        "components": {
+            "real": ["db.Wrs weighted random sampling, db.lockedSource", "FindAnswer / AdditionalSectionForRecords", "dnsserver.FBDNSDB.ServeDNS, WithMaxAnswer", "cdb compiler and driver"],
+            "stub": [],
+            "simulated": ["random stream (seeded through the verif-only db.VerifSeedRand)", "goroutine scheduling of the concurrent clients (seeded)"],
+            "not_run": ["fbserver.maxAnswerHandler (C20 covers the handler chain)"],
+        },
+        "assumptions": ["chi-square cells with an expectation below 5 are merged with their neighbour; the threshold p < 1e-9 keeps the false-alarm probability negligible over all runs"],
+        "required_probes": {"quick": ["weight_zero_candidate_visible", "more_candidates_than_slots", "glue_checked", "proportionality_tested"],
+                            "thorough": ["weight_zero_candidate_visible", "more_candidates_than_slots", "glue_checked", "proportionality_tested"]},
+    },
+    "C14": {
+        "test": "TestC14",
+        "race_tier": {"test": "TestC14Race", "budget": {"quick": 25, "thorough": 400}},
+        "level": "exploration",
+        "budget": {"quick": 40, "thorough": 600},
+        "rule": ("tier (a), controlled schedules: the C05 server plus the real ReloadChan loop, the real PeriodicDBReload on the fake ticker, a stats "
+                 "reporter calling ReportBackendStats, the response cache on or off, and Close at a seeded position (after in-flight queries drained, "
+                 "as the listeners do); violations are a quiescent state with unfinished tasks (deadlock), any panic, and any call that reaches a closed "
+                 "storage back end (intercepted by the monitor; a crash on the real cgo/mmap back ends). Non-trivial = at least one pre-emption; "
+                 "distinct = schedule hash. Tier (b), data races: see the race_tier block of this evidence."),
+        "components": {
+            "real": REAL_SERVER + ["FBDNSDB.PeriodicDBReload, ReportBackendStats, Close", "ServeDNS with and without cache", "cdb and rocksdb drivers"],
+            "stub": ["recording Stats/Logger", "monitor wrapper around the real db.DBI"],
+            "simulated": ["clock, tickers", "goroutine scheduling at yield points (seeded)"],
+            "not_run": ["fsnotify watchers (watchDBAndReload's read of the database path is out of reach)", "network"],
+        },
+        "assumptions": ["Close is called after in-flight queries finished (dns.Server.Shutdown waits for its handlers); reload loop, periodic reload and stats reporter keep running, as in the shipped binary"],
+        "required_probes": {"quick": ["shutdown_reached", "periodic_reload_running", "stats_reporter_running"], "thorough": ["shutdown_reached", "periodic_reload_running", "stats_reporter_running"]},
+    },
 }
